@@ -64,7 +64,54 @@ def density_replay(env):
     return {'confirmed': bool(bad), 'detail': '; '.join(bad) if bad else 'native density/CDF agree across representations'}
 
 
+def bounded_batches(chk):
+    """BOUNDED native stand-in for the clause 'the result for a row depends only on that row; batches of any size': the proof
+    gets it from the generic-lane encoding, which presumes that the code treats a batch as a map over its rows. A batch whose
+    composition matters to the code path (repeated rows, unsorted rows, one row) is run natively against the row-by-row result."""
+    import numpy as np
+    import pandas as pd
+    import warnings
+    warnings.simplefilter('ignore')
+    from copulas.multivariate import GaussianMultivariate
+    from copulas.univariate import GaussianUnivariate
+    rs = np.random.RandomState(7 + (chk.seed or 0))
+    evals = 0
+    ncase = 0
+    for d, corr in ((2, [[1, .6], [.6, 1]]), (3, [[1, .7, .2], [.7, 1, -.4], [.2, -.4, 1]])):
+        z = rs.multivariate_normal([0] * d, corr, 400)
+        X = pd.DataFrame(z * np.arange(1, d + 1) + 1.0, columns=['zed', 'b', 'mid'][:d])
+        m = GaussianMultivariate(distribution=GaussianUnivariate)
+        m.fit(X)
+        base = X.iloc[:6].reset_index(drop=True)
+        tol = {'probability_density': 1e-9, 'log_probability_density': 1e-9, 'cumulative_distribution': 5e-3}
+        alone = {meth: np.array([float(np.ravel(getattr(m, meth)(base.iloc[[i]]))[0]) for i in range(len(base))]) for meth in tol}
+        batches = {'as given': list(range(6)), 'reversed': list(range(5, -1, -1)), 'stacked twice': list(range(6)) * 2,
+                   'descending then repeated': [5, 3, 1, 5, 3, 1, 0], 'one row repeated': [4, 4, 4],
+                   'bootstrap': [int(i) for i in rs.randint(0, 6, 9)]}
+        for bname, idx in batches.items():
+            Q = base.iloc[idx].reset_index(drop=True)
+            for meth in tol:
+                ncase += 1
+                evals += len(idx)
+                try:
+                    got = np.ravel(np.asarray(getattr(m, meth)(Q), dtype=float))
+                    ok = got.shape == (len(idx),) and np.allclose(got, alone[meth][idx], rtol=tol[meth], atol=tol[meth])
+                    detail = 'batch %r vs row by row %r' % (np.round(got, 5).tolist(), np.round(alone[meth][idx], 5).tolist())
+                except Exception as e:      # noqa
+                    ok, detail = False, '%s: %s' % (type(e).__name__, str(e)[:80])
+                if not ok:
+                    chk.bounded_violation('C13.%s.batches.bounded' % meth, {'d': d, 'batch': bname, 'rows': idx},
+                                          '%s on the batch "%s" (rows %r of 6 distinct rows): %s' % (meth, bname, idx, detail))
+                    break
+    chk.bounded.append({'name': 'C13.batches.bounded', 'clause': 'the result for a row depends only on that row, for batches of '
+                        'any size and composition', 'bound': 'd = 2, 3; 6 distinct rows; batches: as given, reversed, stacked '
+                        'twice, unsorted with repeats, one row repeated, a bootstrap resample; pdf / log pdf to 1e-9, cdf to 5e-3 '
+                        '(scipy randomises the integral)', 'evaluations': evals, 'distinct_nontrivial': ncase,
+                        'rule': 'one case = one (d, batch, method)'})
+
+
 def build(chk):
+    bounded_batches(chk)
     I0 = engine.new_interp()
     src = I0.source
     chk.under_contract(src, [GM + '.probability_density', GM + '.cumulative_distribution', GM + '._transform_to_normal',
